@@ -871,6 +871,13 @@ func (g *w7hGenState) jsonPayload() *w7hPayload {
 			n = 20000
 		}
 		long := `"` + strings.Repeat("0123456789abcdef", n/16) + `"`
+		if c.Intn(2) == 1 {
+			// sizes around buffer boundaries, byte by byte: with the envelope of the reply
+			// the encoded message lands on and next to 4096 / 8192 / 16384
+			base := []int{4096, 4096, 8192, 16384}[c.Intn(4)]
+			m := base - 96 + c.Intn(104)
+			long = `"` + strings.Repeat("0123456789abcdef", m/16) + "0123456789abcdef"[:m%16] + `"`
+		}
 		toks = []string{"{", `"i"`, ":", ids, ",", `"long"`, ":", long, "}"}
 	}
 	var b strings.Builder
